@@ -479,6 +479,53 @@ def numeric_witness(ret, R, H, M, trials=40, lengths=None):
     return None
 
 
+def displacement_witness(d: Term) -> Optional[str]:
+    """A displacement handed to remove_pbc may differ from a true difference of two positions only by whole cell vectors of
+    PERIODIC axes (those the masked rounding can undo).  The extracted argument is evaluated on concrete frames whose particles
+    lie partly outside the primary cell, for masks with an open axis; a row that is no position difference modulo the periodic
+    lattice is the witness.  None: not evaluable, or nothing found."""
+    from ..concrete import ev as cev
+    pos_terms = sorted({x for x in walk(d) if x[0] == "attr" and x[2] == "positions"}, key=str)
+    cell_terms = sorted({x for x in walk(d) if x[0] == "attr" and x[2] in ("hmatrix", "boxlength", "boxbounds")}, key=str)
+    free = sorted({x for x in walk(d) if x[0] in ("loopvar", "cvar")}, key=str)
+    if not pos_terms:
+        return None
+    rng = np.random.default_rng(7)
+    for dim, Hm in ((3, np.diag([3.0, 4.0, 5.0])), (2, np.array([[3.0, 0.0], [1.2, 4.0]])), (3, np.array([[3.0, 0, 0], [-1.1, 4.0, 0], [0.7, 0.9, 5.0]]))):
+        P = rng.uniform(-0.9, 1.9, (6, dim)) @ Hm          # fractional coordinates from -0.9 to 1.9: inside and outside the cell
+        env = {}
+        for t in pos_terms:
+            env[t] = P
+        for t in cell_terms:
+            env[t] = {"hmatrix": Hm, "boxlength": np.diag(Hm).copy(), "boxbounds": np.column_stack((np.zeros(dim), np.diag(Hm)))}[t[2]]
+        for v in free:
+            env[v] = 2
+        try:
+            got = np.atleast_2d(np.asarray(cev(d, env), dtype=float))
+        except Exception:  # noqa
+            return None
+        if got.shape[1] != dim:
+            return None
+        Hinv = np.linalg.inv(Hm)
+        for open_axis in range(dim):
+            for r, g in enumerate(got):
+                best = None
+                for a in range(P.shape[0]):
+                    for b in range(P.shape[0]):
+                        f = (g - (P[a] - P[b])) @ Hinv
+                        dev = np.abs(f - np.rint(f))
+                        dev[open_axis] = abs(f[open_axis])
+                        if best is None or dev.max() < best:
+                            best = dev.max()
+                if best is not None and best > 1e-7:
+                    mask = [1] * dim
+                    mask[open_axis] = 0
+                    return (f"cell {Hm.tolist()}, periodicity mask {mask}, particles with fractional coordinates between -0.9 and 1.9: row {r} of the argument, "
+                            f"{np.round(g, 4).tolist()}, differs from every position difference by {best:.3f} cell vectors along an axis remove_pbc must leave alone "
+                            f"(a shift along the open axis cannot be undone by the masked rounding)")
+    return None
+
+
 def position_snapshots(t: Term):
     """Snapshot terms S such that S.positions occurs in t; plus flags for other position-like roots."""
     snaps, other = [], []
@@ -530,8 +577,14 @@ def check_call_sites(run: Run, pkg: Package) -> None:
                                     (d[0] == "sub" and d[1][0] == "attr" and d[1][2] == "positions")):
                 ok_d = False        # absolute coordinates, no difference taken
                 snaps = [d[1] if d[0] == "attr" else d[1][1]]
+            wit_d = None
+            if d is not None and (ok_d is None or (ok_d is True and any(x[0] == "call" and isinstance(x[1], str) and x[1].split(".")[-1] in
+                                                                       ("floor", "rint", "round", "around", "mod", "remainder", "fmod", "trunc", "ceil") for x in walk(d)))):
+                wit_d = displacement_witness(d)
+                if wit_d:
+                    ok_d = False
             run.ob("R-PBC", fq, f"{key}:displacement", ok_d, "first argument is a difference of two position terms (a displacement)", det,
-                   witness=None if ok_d is not False else "absolute coordinates / a cell matrix are minimum-imaged instead of a displacement", loc=loc, sound=True)
+                   witness=None if ok_d is not False else (wit_d or "absolute coordinates / a cell matrix are minimum-imaged instead of a displacement"), loc=loc, sound=True)
             # --- cell
             ok_h = None
             hx = expand_self(h, attrs) if h is not None else None
